@@ -2461,8 +2461,7 @@ def _sha512_text(t):
                  (' 0#32', ' 0#64'), ('BitVec 32', 'BitVec 64'), ('usual_bswap32', 'usual_bswap64'),
                  ('C05TSha', 'C05TSha512'), ('sha256', 'sha512'), ('SHA-256', 'SHA-512'), ('SHA256', 'SHA512'),
                  ('List.range 64', 'List.range 80'), ('roundG 63', 'roundG 79'), ('977 `let`s', '1217 `let`s'),
-                 ('the 64 unrolled rounds', 'the 80 unrolled rounds'),
-                 ('theorem core_eq_rounds', 'set_option maxHeartbeats 2000000 in\ntheorem core_eq_rounds')):
+                 ('/-- the 64 unrolled rounds', 'set_option maxHeartbeats 2000000 in\n/-- the 80 unrolled rounds')):
         t = t.replace(a, b)
     return t
 
@@ -2506,6 +2505,135 @@ def c05tsha_partA(gen_text, variant='256'):
             % (cur['w'], tail[-1], variant, smk(cur)))
     out += '  rw [hfin]\n  clear hfin\n  simp only [List.range, List.range.loop, List.foldl]\n'
     out += '  rw [' + ', '.join(reversed(hyps)) + ', h_s]\n\nend UsualProofs.Bridge.C05TSha%s\n' % ('' if variant == '256' else '512')
+    return out
+
+
+def c05tsha1_module(repo=None, workdir='/tmp'):
+    """usual/crypto/sha1.c: sha1_core(ctx, buf) — 80 macro-expanded rounds on the 16-word circular
+    buffer `buf` (an array parameter; the `buf` field of the context is not part of the struct view:
+    the function reaches it only through the parameter), rol32 of usual/bits.h, bswap32 of endian.h"""
+    repo = repo or _default_repo()
+    stub = _stub(workdir, 'c05tsha1_stub.c', '#include "usual/crypto/sha1.c"\n')
+    m = Module(stub, repo, flt='sha1_core')
+    m.struct('sha1_ctx', skip=('buf',))
+    m.fn('rol32', {'v': 'val', 's': 'val'}, assume={'s': (1, 31)}, flt='rol32')
+    m.fn('usual_bswap32', {'x': 'val'}, flt='usual_bswap32')
+    m.fn('sha1_core', {'ctx': 'struct', 'buf': ('arr', 16)}, prune=True)
+    return m.text('Usual.Gen.C05TSha1', GEN_NOTE % ('usual/crypto/sha1.c, usual/bits.h, usual/endian.h', 'C05'))
+
+
+C05TSHA1_PARTA_HEAD = """import Usual.Gen.C05TSha1
+/-!
+# C05 translation tie, SHA-1 (part A): the 80 macro-expanded rounds of `sha1_core`, folded
+
+`Usual.Gen.C05TSha1.sha1_core` (regenerated from usual/crypto/sha1.c on every run) is a chain of 799
+`let`s.  This file states what one `SHA1OP` block does (`Rlo` for `t < 16`, `Rhi` on the 16-word
+circular buffer for `t ≥ 16`; mix function and constant chosen by `t / 20`) and proves, block by
+block (`extract_lets` … `rfl` … `clear_value`; script produced mechanically from the names in the
+generated file), that the whole function is `finishG ctx (roundG 79 (… (roundG 0 (startG ctx buf))))`.
+No axioms beyond the kernel's.  Part B (`Bridge/C05TSha1.lean`) identifies that with the model.
+-/
+set_option maxRecDepth 100000
+namespace UsualProofs.Bridge.C05TSha1
+open Usual.Gen.C05TSha1
+
+abbrev W := BitVec 32
+
+/-- the working variables `a … e` and the 16-word circular message buffer `W(n)` -/
+structure S where
+  a : W
+  b : W
+  c : W
+  d : W
+  e : W
+  w : Array W
+
+/-- `F0 … F3`, selected by `t / 20` -/
+def fG (q : Nat) (b c d : W) : W :=
+  match q with
+  | 0 => (d ^^^ (b &&& (c ^^^ d)))
+  | 1 => ((b ^^^ c) ^^^ d)
+  | 2 => (((b &&& c) ||| (b &&& d)) ||| (c &&& d))
+  | _ => ((b ^^^ c) ^^^ d)
+
+/-- the round constants of `SHA1R0 … SHA1R3` -/
+def kG (q : Nat) : W :=
+  match q with
+  | 0 => 1518500249#32
+  | 1 => 1859775393#32
+  | 2 => 2400959708#32
+  | _ => 3395469782#32
+
+/-- the part of `SHA1OP` after `W(t)` has been set -/
+def stepG (q : Nat) (wt : W) (s : S) (w' : Array W) : S :=
+  let tmp := (((((rol32 s.a (5#32)) + (fG q s.b s.c s.d)) + s.e) + wt) + (kG q))
+  { a := tmp, b := s.a, c := (rol32 s.b (30#32)), d := s.c, e := s.d, w := w' }
+
+/-- round `t < 16`: `W(t) = be32toh(W(t))` first -/
+def Rlo (j : Nat) (s : S) : S :=
+  let w' := s.w.setIfInBounds j (usual_bswap32 (s.w.getD j 0#32))
+  stepG 0 (w'.getD j 0#32) s w'
+
+/-- round `t ≥ 16` on the circular buffer: `j = t & 15`, `q = t / 20` -/
+def Rhi (j q : Nat) (s : S) : S :=
+  let tmp := ((((s.w.getD ((j + 13) % 16) 0#32) ^^^ (s.w.getD ((j + 8) % 16) 0#32)) ^^^ (s.w.getD ((j + 2) % 16) 0#32)) ^^^ (s.w.getD j 0#32))
+  let w' := s.w.setIfInBounds j (rol32 tmp (1#32))
+  stepG q (w'.getD j 0#32) s w'
+
+def roundG (t : Nat) (s : S) : S := if t < 16 then Rlo t s else Rhi (t % 16) (t / 20) s
+
+def finishG (ctx : sha1_ctx) (s : S) : sha1_ctx × Array W :=
+  (({ nbytes := ctx.nbytes, a := (ctx.a + s.a), b := (ctx.b + s.b), c := (ctx.c + s.c), d := (ctx.d + s.d),
+      e := (ctx.e + s.e) } : sha1_ctx), s.w)
+
+def startG (ctx : sha1_ctx) (buf : Array W) : S :=
+  { a := ctx.a, b := ctx.b, c := ctx.c, d := ctx.d, e := ctx.e, w := buf }
+
+set_option maxHeartbeats 2000000 in
+/-- the 80 rounds of the generated `sha1_core`, folded -/
+theorem core_eq_rounds (ctx : sha1_ctx) (buf : Array W) :
+    sha1_core ctx buf = finishG ctx ((List.range 80).foldl (fun s t => roundG t s) (startG ctx buf)) := by
+  unfold sha1_core
+"""
+
+
+def c05tsha1_partA(gen_text):
+    """text of lean/UsualProofs/Bridge/C05TSha1A.lean (see c05tsha_partA)"""
+    body = gen_text[gen_text.index('def sha1_core'):]
+    lets = re.findall(r'^  let (\w+) := ', body, re.M)
+    if len(lets) != 10 + 16 * 9 + 64 * 10 + 5:
+        raise Refused('sha1_core: unexpected number of statements (%d)' % len(lets))
+    head, tail = lets[:10], lets[-5:]
+    rounds, pos = [], 10
+    for i in range(80):
+        k = 9 if i < 16 else 10
+        rounds.append(lets[pos:pos + k])
+        pos += k
+
+    def pick(names, base):
+        return [n for n in names if re.match(base + r'_\d+$', n)][-1]
+
+    def smk(c):
+        return '(S.mk %s)' % ' '.join(c[k] for k in 'abcdew')
+    ex = '  extract_lets -merge +onlyGivenNames '
+    cur = dict(zip('abcde', head[5:10]))
+    cur['w'] = 'buf'
+    out = C05TSHA1_PARTA_HEAD + ex + ' '.join(head) + '\n'
+    out += '  have h_s : %s = startG ctx buf := rfl\n' % smk(cur)
+    hyps = []
+    for i, names in enumerate(rounds):
+        new = {k: pick(names, k) for k in 'abcde'}
+        new['w'] = pick(names, 'buf')
+        out += ex + ' '.join(names) + '\n'
+        out += '  have h%d : %s = roundG %d %s := rfl\n' % (i, smk(new), i, smk(cur))
+        out += '  clear_value ' + ' '.join(reversed(names)) + '\n'
+        cur = new
+        hyps.append('h%d' % i)
+    out += ex + ' '.join(tail) + '\n'
+    out += ('  have hfin : ((({ nbytes := ctx.nbytes, a := %s, b := %s, c := %s, d := %s, e := %s } : sha1_ctx), %s) : '
+            'sha1_ctx × Array W) = finishG ctx %s := rfl\n' % (tuple(tail) + (cur['w'], smk(cur))))
+    out += '  rw [hfin]\n  clear hfin\n  simp only [List.range, List.range.loop, List.foldl]\n'
+    out += '  rw [' + ', '.join(reversed(hyps)) + ', h_s]\n\nend UsualProofs.Bridge.C05TSha1\n'
     return out
 
 
@@ -2558,9 +2686,12 @@ def _ttie1(ck, vf, name, fn, what, bridge):
         txt = fn(vf.REPO, ck.bdir)
     except Refused as e:
         return broken('T-tie: extract/c2lean.py refuses %s (left the C subset): %s' % (what, e))
-    vf.write_if_changed(path, txt)
-    p = sp.run(['lake', 'env', 'lean', path], cwd=vf.LEAN, stdout=sp.PIPE, stderr=sp.STDOUT, text=True)
-    if p.returncode != 0:
+    changed = vf.write_if_changed(path, txt)
+    # a file identical to the one already on disk was compiled when it was written (its olean is what
+    # `lake build` re-uses); a new text is compiled here first so that a failure is attributed to it
+    p = sp.run(['lake', 'env', 'lean', path], cwd=vf.LEAN, stdout=sp.PIPE, stderr=sp.STDOUT, text=True) \
+        if changed or txt != pinned else None
+    if p is not None and p.returncode != 0:
         return broken('T-tie: the Lean file generated from %s does not compile: %s'
                       % (what, ' | '.join(l for l in p.stdout.split('\n') if 'error' in l)[:300]))
     ck.cov['t_tie_' + name] = 'regenerated from %s%s' % (
@@ -2571,7 +2702,9 @@ def _ttie1(ck, vf, name, fn, what, bridge):
 TTIE_MODS = {
     'C05': [('T', c05t_module, 'usual/crypto/chacha.c chacha_mix + usual/bits.h rol32', ['UsualProofs.Bridge.C05T']),
             ('TSha', c05tsha_module, 'usual/crypto/sha256.c sha256_core',
-             ['UsualProofs.Bridge.C05TShaA', 'UsualProofs.Bridge.C05TSha'])],
+             ['UsualProofs.Bridge.C05TShaA', 'UsualProofs.Bridge.C05TSha']),
+            ('TSha512', c05tsha512_module, 'usual/crypto/sha512.c sha512_core',
+             ['UsualProofs.Bridge.C05TSha512A', 'UsualProofs.Bridge.C05TSha512'])],
 }
 
 
